@@ -82,7 +82,7 @@ def project(blk, name, meta):
         return send_opcodes(blk)
     return ()
 def oracle(name, ib, mb, meta):
-    fails = []; mtu = 1500; own = OWN0; tr = None
+    fails = []; mtu = 1500; own = OWN0; tr = None; maybe = {}
     for i, b in enumerate(ib):
         if b.op.startswith('cfg 0'):
             kv = dict(t.split('=', 1) for t in b.op.split()[2:]); mtu = int(kv.get('mtu', mtu)); own = bytes.fromhex(kv.get('mac', own.hex()))
@@ -90,9 +90,16 @@ def oracle(name, ib, mb, meta):
         if tr is None: tr = SeeTracker(own)
         if not b.op.startswith('frame 0 ') or b.fault: continue
         ctx, fr = frame_of(b); d = dec(rxview(b, fr))
+        if d['tos'] == 1 and d['opc'] == 8:
+            # "a Reset discards the record": the statement does not say of which service; after a quick-discovery Reset what
+            # was pending may be reported or not (the topology Reset below is the one C09 speaks about)
+            maybe.update(tr.pending); tr.pending.clear()
         if d['tos'] != 0: continue
-        if d['opc'] in (3, 4): tr.own = own; tr.feed_probe(d)
-        elif d['opc'] == 8: tr.pending.clear(); tr.open = False
+        if d['opc'] in (3, 4):
+            tr.own = own
+            # a station whose earlier observation may still be held (see above) may be de-duplicated against it: stays open
+            if (d['esrc'], d['rsrc']) not in maybe: tr.feed_probe(d)
+        elif d['opc'] == 8: tr.pending.clear(); tr.open = False; maybe.clear()
         elif d['opc'] == 6 and not tr.open:
             cap = (mtu - 34) // 20
             sn = sends_of(b)
@@ -107,13 +114,15 @@ def oracle(name, ib, mb, meta):
                 key = (es, rs)
                 if key in seen: fails.append((i, 'observation %s/%s listed twice in one QueryResp' % (es.hex(), rs.hex())))
                 seen.add(key)
+                if key in maybe and key not in tr.pending: maybe.pop(key); continue
                 if key not in tr.pending: fails.append((i, 'QueryResp lists %s/%s, which was not observed since the last report (invented or reported twice)' % (es.hex(), rs.hex())))
                 elif tr.pending[key] != (t, rs, es, ed): fails.append((i, 'observation %s/%s reported as %r, received as %r' % (es.hex(), rs.hex(), (t, ed.hex()), (tr.pending[key][0], tr.pending[key][3].hex()))))
             # how many go into one frame is bounded by the MTU, not prescribed; but an answer must make progress
             if 34 + 20 * q['n'] > mtu: fails.append((i, 'QueryResp lists %d observations, more than fit into the MTU %d' % (q['n'], mtu)))
             if q['n'] == 0 and tr.pending and cap > 0: fails.append((i, 'QueryResp lists nothing although %d observations are pending and %d fit' % (len(tr.pending), cap)))
             for key in seen: tr.pending.pop(key, None)
-            if q['more'] != (len(tr.pending) > 0):
+            if not q['more']: maybe.clear()
+            if q['more'] != (len(tr.pending) > 0) and not (q['more'] and maybe):
                 fails.append((i, 'QueryResp more flag is %d although %d observations remain unreported' % (q['more'], len(tr.pending))))
             if not q['more'] and tr.pending:
                 fails.append((i, '%d observations silently dropped (not delivered, no more flag)' % len(tr.pending))); tr.pending.clear()
